@@ -5,6 +5,7 @@
   dependence of the implementation on segmentation shows up as a disagreement.
 -/
 import FlacModel.Model.Decode
+import FlacModel.Gen.ShapesRd
 
 namespace Flac
 
